@@ -33,6 +33,38 @@ def entry_readers(ctx):
     return out
 
 
+def record_aggs(ctx, b, op, depth=4):
+    """The record(s) an Ok exit carries: aggregates of crate types (looked for through wrapping enum variants such as
+    `Step::Entry(rec)` / `Some(rec)`) that hold a byte buffer.  `Step::End(reason)` carries none.
+    Returns [(adt path, bb, rvalue)]."""
+    prog = ctx.prog
+    out = []
+    pl = place_of(op)
+    if pl is None or depth < 0:
+        return out
+    l = pl["l"]
+    for _ in range(6):
+        defs = b.assignments().get(l, [])
+        aggs = [(dbb, rv) for (dbb, j, rv) in defs if j != "term" and rv["k"] == "agg"]
+        if aggs:
+            for (dbb, rv) in aggs:
+                if rv.get("def") in prog.adts and any(
+                        place_of(o) is not None and prog.adt_of(b.locals[place_of(o)["l"]])[0] == "std::vec::Vec"
+                        and not place_of(o)["p"] for o in rv["ops"]):
+                    out.append((rv["def"], dbb, rv))
+                else:
+                    for o in rv["ops"]:
+                        out.extend(record_aggs(ctx, b, o, depth - 1))
+            return out
+        uses = [rv for (dbb, j, rv) in defs if j != "term" and rv["k"] == "use" and place_of(rv["op"]) is not None
+                and not place_of(rv["op"])["p"]]
+        if len(defs) == 1 and uses:
+            l = place_of(uses[0]["op"])["l"]
+            continue
+        return out
+    return out
+
+
 def reader_view(ctx, path):
     """Flat view of a record reader (its private helpers inlined)."""
     return ctx.flat(ctx.prog.bodies[path])
@@ -74,8 +106,7 @@ def rules(ctx, tier):
             for s in b.stmts(bb):
                 if s["k"] == "assign" and s["lhs"]["l"] == 0 and not s["lhs"]["p"] and s["rv"]["k"] == "agg" \
                         and s["rv"].get("vn") == "Ok" and s["rv"]["ops"]:
-                    lv = sl.leaves_of_operand(s["rv"]["ops"][0])
-                    aggs = [l for l in lv if l[0] == "agg" and l[1] in prog.adts]
+                    aggs = record_aggs(ctx, b, s["rv"]["ops"][0])
                     if aggs:
                         accepts.append((bb, s, aggs))
         r.check(len(accepts) >= 1, "accept-sites", b, "%d accepting return(s) in %s" % (len(accepts), p),
@@ -83,11 +114,7 @@ def rules(ctx, tier):
         for (bb, s, aggs) in accepts:
             for a in aggs:
                 # payload buffer moved into the entry
-                t_agg = None
-                for bb2 in b.normal_blocks():
-                    for s2 in b.stmts(bb2):
-                        if s2["k"] == "assign" and s2["rv"]["k"] == "agg" and s2["rv"].get("def") == a[1] and bb2 == a[2]:
-                            t_agg = s2["rv"]
+                t_agg = a[2]
                 if t_agg is None:
                     r.bad("entry-agg", b, "cannot find the entry aggregate")
                     continue
@@ -360,7 +387,8 @@ def end_of_log_rule(ctx, rid):
                     lv = sl.leaves_of_operand(st["rv"]["ops"][0])
                     if st["lhs"]["l"] != 0 and not (lv and all(l[0] == "agg" and str(l[1]).endswith("Option::None") for l in lv)):
                         continue
-                    if not any(l[0] == "agg" and l[1] in prog.adts for l in lv):
+                    if not record_aggs(ctx, b, st["rv"]["ops"][0]) and not any(
+                            l[0] == "agg" and l[1] in prog.adts and prog.adts[l[1]]["kind"] == "Struct" for l in lv):
                         ends.append((bb, st.get("line") or b.blocks[bb]["span"]["line"]))
         r.check(bool(ends), "end-exits", b, "%d 'no more records' exit(s) in %s" % (len(ends), p),
                 "cannot find the 'no more records' exits of %s" % p)
